@@ -216,7 +216,16 @@ impl<R: Read> CharRead for CharReader<R> {
 
             match self.read_chunk() {
                 Err(e) => return Some(Err(e)),
-                Ok(0) => return Some(Err(bad_bytes_error(&self.buf))),
+                Ok(0) => {
+                    // the input ends inside a multi-byte sequence:
+                    // the unread tail is the invalid sequence
+                    let bad_bytes = self.buf[self.pos..].to_vec();
+
+                    return Some(Err(io::Error::new(
+                        io::ErrorKind::InvalidData,
+                        BadUtf8Error { bytes: bad_bytes },
+                    )));
+                }
                 Ok(_) => {
                     // successfully filled the buffer with another chunk of data
                 }
